@@ -1242,4 +1242,418 @@ theorem step_enq (ord) (m : Sys) (sp : SpecSt) (data : Bytes) (rest : List Op)
       simp
     · exact ⟨hL'.ordEq, hL'.steps, hL'.recvs, hL'.sends⟩
 
+
+theorem callsObs_run {w0 w' : Script} {l : List Call} (h : SendRun w0 w' l) (h0 : w0.calls = []) :
+    callsObs w'.calls = l.filterMap callObs := by
+  simp [callsObs, h.calls, h0]
+
+theorem step_send (ord) (m : Sys) (sp : SpecSt) (T : Int) (data : Bytes) (waits : List WaitAns) (sends : List SendAns)
+    (rest : List Op) (hR : Rel m sp) (hI : MInv m) (hL : Live ord m (.send T data waits sends :: rest))
+    (hok : opOk ord m (.send T data waits sends) rest = true) :
+    StepOk ord m sp (.send T data waits sends) rest := by
+  by_cases ha : m.async = true
+  · refine ⟨sp, ?_, ?_, ?_, ?_⟩ <;> simp only [sysStep, if_pos ha]
+    · intro tail; rfl
+    · exact hR
+    · exact hI
+    · exact ⟨hL.ordEq, hL.steps, hL.recvs, fun a => by rw [ha] at a; cases a⟩
+  · have ha' : m.async = false := by cases h : m.async <;> simp_all
+    simp only [opOk, ha', Bool.false_or, Bool.and_eq_true, bne_iff_ne, ne_eq, Bool.or_eq_true,
+      Option.isNone_iff_eq_none, List.isEmpty_iff] at hok
+    obtain ⟨⟨hdata, hsane⟩, hkw⟩ := hok
+    have hs0 : saneSends (arm m.x.w waits sends).sends = true := saneSends_append _ _ hI.sane hsane
+    obtain ⟨⟨l, hrun, hlog⟩, hnl, hlive⟩ := send_facts T (arm m.x.w waits sends) data hs0
+    obtain ⟨ep, hep, he1, he2, he3, he4⟩ := hR.ep
+    have hkilledW : m.killed.isSome = true → (arm m.x.w waits sends).waits = [] ∧ (arm m.x.w waits sends).sends = m.x.w.sends := by
+      intro hk
+      rcases hkw with h | ⟨h1, h2⟩
+      · rw [h] at hk; cases hk
+      · subst h1; subst h2
+        simp [arm, hI.kwaits hk]
+    refine ⟨{ sp with ep := some { ep with recvOp := false, callT := none, spent := spendLog T 0 l },
+                      threwAfterKill := if (sendT Script.world (arm m.x.w waits sends) data T).exn.isSome = true ∧ sp.kill.isSome = true
+                        then true else sp.threwAfterKill }, ?_, ?_, ?_, ?_⟩ <;>
+      simp only [sysStep, if_neg ha]
+    · intro tail
+      rw [callsObs_run hrun rfl]
+      have h1 : specStep sp (.api .send (some T)) = .ok { sp with ep := some { ep with recvOp := false, callT := some T, spent := 0 } } := by
+        simp [specStep, hep]
+      simp only [List.singleton_append, List.cons_append, List.append_assoc, List.nil_append, specRun, h1]
+      refine (specRun_log T l { sp with ep := some { ep with recvOp := false, callT := some T, spent := 0 } }
+        { ep with recvOp := false, callT := some T, spent := 0 } _ rfl rfl hlog).trans ?_
+      cases hx : (sendT Script.world (arm m.x.w waits sends) data T).exn with
+      | none => simp [specRun, specStep, retOf]
+      | some e =>
+        have := hnl e hx
+        cases hk : sp.kill <;> simp [specRun, specStep, retOf, this, hk]
+    · refine ⟨⟨_, rfl, he1, he2, rfl, he4⟩, hR.spay, hR.kill, hR.pre, hR.ord, ?_, hR.destroyed, hR.enqs, hR.live, hR.futs⟩
+      intro h
+      have h' : (m.threw || (m.killed.isSome && (sendT Script.world (arm m.x.w waits sends) data T).exn.isSome)) = true := h
+      simp only [Bool.or_eq_true, Bool.and_eq_true] at h'
+      rcases h' with h' | ⟨h1, h2⟩
+      · have := hR.threw h'
+        show (if _ then true else sp.threwAfterKill) = true
+        split <;> simp_all
+      · show (if _ then true else sp.threwAfterKill) = true
+        rw [hR.kill]
+        simp [h1, h2]
+    · have hrec : (sendT Script.world (arm m.x.w waits sends) data T).w.recvs = m.x.w.recvs := hrun.recvs
+      have hdead : (sendT Script.world (arm m.x.w waits sends) data T).w.dead = m.x.w.dead := hrun.dead
+      refine ⟨hI.psent, ?_, ?_, ?_, ?_, hrun.sane hs0, hI.lossyK, hI.kreal, hI.adisc, hI.areg, hI.pollq, ?_, ?_, ?_⟩
+      · show recvsOk m.rsz m.lossy (sendT Script.world (arm m.x.w waits sends) data T).w.recvs
+        rw [hrec]; exact hI.recvs
+      · show ∃ lost, m.ppay.take m.psent = m.got ++ dataOf (sendT Script.world (arm m.x.w waits sends) data T).w.recvs ++ lost ∧ _
+        rw [hrec]; exact hI.stream
+      · show (sendT Script.world (arm m.x.w waits sends) data T).w.dead = m.killed.isSome
+        rw [hdead]; exact hI.dead
+      · intro hk
+        exact hrun.waits (hkilledW hk).1
+      · intro h
+        show m.killed.isSome = true ∧ (sendT Script.world (arm m.x.w waits sends) data T).w.recvs = []
+        rw [hrec]; exact hI.unreg h
+      · intro h
+        have h' : m.rthrew = true := h
+        obtain ⟨h1, h2, h3⟩ := hI.rthrew h'
+        refine ⟨h1, ?_, ?_⟩
+        · show (sendT Script.world (arm m.x.w waits sends) data T).w.recvs = []
+          rw [hrec]; exact h2
+        · show (m.threw || _) = true
+          simp [h3]
+      · intro h
+        have h' : (m.threw || (m.killed.isSome && (sendT Script.world (arm m.x.w waits sends) data T).exn.isSome)) = true := h
+        simp only [Bool.or_eq_true, Bool.and_eq_true] at h'
+        rcases h' with h' | ⟨h1, _⟩
+        · exact hI.threwK h'
+        · exact h1
+    · refine ⟨hL.ordEq, ?_, ?_, ?_⟩
+      · intro a; have : m.async = true := a; rw [ha'] at this; cases this
+      · intro a hk hr ho
+        have := hL.recvs a hk hr ho
+        show recvOps rest > (sendT Script.world (arm m.x.w waits sends) data T).w.recvs.length
+        rw [hrun.recvs]
+        exact this
+      · intro a k p hk ht hn ho
+        have hk' : m.killed = some (k, p) := hk
+        have ht' : (m.threw || (m.killed.isSome && (sendT Script.world (arm m.x.w waits sends) data T).exn.isSome)) = false := ht
+        simp only [Bool.or_eq_false_iff, hk', Option.isSome_some, Bool.true_and] at ht'
+        have hx : (sendT Script.world (arm m.x.w waits sends) data T).exn = none := by
+          cases h : (sendT Script.world (arm m.x.w waits sends) data T).exn
+          · rfl
+          · rw [h] at ht'; simp at ht'
+        have hks : m.killed.isSome = true := by rw [hk']; rfl
+        obtain ⟨hw0, hs0'⟩ := hkilledW hks
+        have hd0 : (arm m.x.w waits sends).dead = true := by
+          show m.x.w.dead = true
+          rw [hI.dead]; exact hks
+        have h1 := hlive hd0 hw0 hdata hx
+        have h2 := hL.sends a k p hk' ht'.1 hn ho
+        simp only [sendOps] at h2
+        show sendOps rest > (sendT Script.world (arm m.x.w waits sends) data T).w.sends.length
+        rw [hs0'] at h1
+        omega
+
+
+theorem pollOk_self (T : Int) : pollOk T 0 T = true := by
+  unfold pollOk
+  split
+  · simpa using ‹T < 0›
+  · split
+    · simpa using ‹T = 0›
+    · simp only [Bool.and_eq_true, decide_eq_true_eq]; omega
+
+/-- the observer accepts the lines of one synchronous `Receive`: api, one wait with the call's timeout, result -/
+theorem specRun_recv (sp : SpecSt) (ep : EpSt) (T : Int) (r : Bool) (threw : Bool) (tail : List Obs) (hep : sp.ep = some ep) :
+    specRun sp (.api .recv (some T) :: .poll T r :: .ret (if threw then .threw false false else .returned) :: tail)
+      = specRun { sp with ep := some { ep with recvOp := true, callT := none, spent := nextSpent T 0 T r },
+                          threwAfterKill := if threw = true ∧ sp.kill.isSome = true then true else sp.threwAfterKill } tail := by
+  have h1 : specStep sp (.api .recv (some T)) = .ok { sp with ep := some { ep with recvOp := true, callT := some T, spent := 0 } } := by
+    simp [specStep, hep]
+  have hp := pollClause_ok { ep with recvOp := true, callT := some T, spent := 0 } T T r (pollOk_self T)
+  have h2 : specStep { sp with ep := some { ep with recvOp := true, callT := some T, spent := 0 } } (.poll T r)
+      = .ok { sp with ep := some { ep with recvOp := true, callT := some T, spent := nextSpent T 0 T r } } := by
+    simp [specStep, hp, Except.map]
+  simp only [specRun, h1, h2]
+  cases threw
+  · simp [specStep]
+  · cases hk : sp.kill <;> simp [specStep, hk]
+
+/-- `ReceiveNow` against the scripted kernel -/
+theorem recvNow_script (w : Script) (n : Nat) :
+    (w.recvs = [] → w.dead = true → recvNow Script.world w n = .exn .closed { w with calls := .recv n (.data []) :: w.calls }) ∧
+    (w.recvs = [] → w.dead = false → recvNow Script.world w n = .exn (.system 11) { w with calls := .recv n (.fail 11) :: w.calls }) ∧
+    (∀ e rest, w.recvs = .fail e :: rest →
+      recvNow Script.world w n = .exn (.system e) { w with recvs := rest, calls := .recv n (.fail e) :: w.calls }) ∧
+    (∀ bs rest, w.recvs = .data bs :: rest → bs ≠ [] → bs.length ≤ n →
+      recvNow Script.world w n = .got bs { w with recvs := rest, calls := .recv n (.data bs) :: w.calls }) := by
+  refine ⟨?_, ?_, ?_, ?_⟩
+  · intro h hd; simp [recvNow, Script.world, h, hd]
+  · intro h hd; simp [recvNow, Script.world, h, hd]
+  · intro e rest h; simp [recvNow, Script.world, h]
+  · intro bs rest h hne hl
+    have : bs.take n = bs := List.take_of_length_le hl
+    simp [recvNow, Script.world, h, this, hne]
+
+
+/-- a synchronous `Receive` that threw -/
+theorem recv_exn_ok (ord) (m : Sys) (sp : SpecSt) (ep : EpSt) (T : Int) (waits : List WaitAns) (rest : List Op) (w' : Script) (x : Int)
+    (hR : Rel m sp) (hI : MInv m) (hL : Live ord m (.recv T waits :: rest)) (ha : m.async = false)
+    (hep : sp.ep = some ep ∧ ep.async = m.async ∧ ep.tls = false ∧ ep.callT = none ∧ ep.discSeen = m.x.a.disconnects)
+    (hsane : saneSends w'.sends = true) (hd : w'.dead = m.x.w.dead) (hw : m.killed.isSome = true → w'.waits = [])
+    (hr : w'.recvs = []) (hdata : dataOf m.x.w.recvs = []) :
+    Rel { m with x := { m.x with w := w' }, threw := m.threw || m.killed.isSome, rthrew := m.rthrew || m.killed.isSome }
+        { sp with ep := some { ep with recvOp := true, callT := none, spent := x },
+                  threwAfterKill := if true = true ∧ sp.kill.isSome = true then true else sp.threwAfterKill } ∧
+    MInv { m with x := { m.x with w := w' }, threw := m.threw || m.killed.isSome, rthrew := m.rthrew || m.killed.isSome } ∧
+    Live ord { m with x := { m.x with w := w' }, threw := m.threw || m.killed.isSome, rthrew := m.rthrew || m.killed.isSome } rest := by
+  obtain ⟨h0, he1, he2, he3, he4⟩ := hep
+  refine ⟨?_, ?_, ?_⟩
+  · refine ⟨⟨_, rfl, he1, he2, rfl, he4⟩, hR.spay, hR.kill, hR.pre, hR.ord, ?_, hR.destroyed, hR.enqs, hR.live, hR.futs⟩
+    intro h
+    have h' : (m.threw || m.killed.isSome) = true := h
+    show (if true = true ∧ sp.kill.isSome = true then true else sp.threwAfterKill) = true
+    rw [hR.kill]
+    simp only [Bool.or_eq_true] at h'
+    rcases h' with h' | h'
+    · have := hR.threw h'; split <;> simp_all
+    · simp [h']
+  · obtain ⟨lost, hs, hl⟩ := hI.stream
+    refine ⟨hI.psent, ?_, ⟨lost, ?_, hl⟩, ?_, hw, hsane, hI.lossyK, hI.kreal, hI.adisc, hI.areg, hI.pollq, ?_, ?_, ?_⟩
+    · show recvsOk m.rsz m.lossy w'.recvs
+      rw [hr]; trivial
+    · show m.ppay.take m.psent = m.got ++ dataOf w'.recvs ++ lost
+      rw [hr, hs, hdata]; rfl
+    · show w'.dead = m.killed.isSome
+      rw [hd]; exact hI.dead
+    · intro h; exact ⟨(hI.unreg h).1, hr⟩
+    · intro h
+      have h' : (m.rthrew || m.killed.isSome) = true := h
+      simp only [Bool.or_eq_true] at h'
+      have hk : m.killed.isSome = true := by
+        rcases h' with h' | h'
+        · exact (hI.rthrew h').1
+        · exact h'
+      exact ⟨hk, hr, by show (m.threw || m.killed.isSome) = true; simp [hk]⟩
+    · intro h
+      have h' : (m.threw || m.killed.isSome) = true := h
+      simp only [Bool.or_eq_true] at h'
+      rcases h' with h' | h'
+      · exact hI.threwK h'
+      · exact h'
+  · refine ⟨hL.ordEq, ?_, ?_, ?_⟩
+    · intro a; have : m.async = true := a; rw [ha] at this; cases this
+    · intro _ hk hrt
+      have hk' : m.killed.isSome = true := hk
+      have : (m.rthrew || m.killed.isSome) = false := hrt
+      simp [hk'] at this
+    · intro _ k p hk ht
+      have hk' : m.killed = some (k, p) := hk
+      have : (m.threw || m.killed.isSome) = false := ht
+      simp [hk'] at this
+
+/-- a synchronous `Receive` that returned the next segment -/
+theorem recv_got_ok (ord) (m : Sys) (sp : SpecSt) (ep : EpSt) (T : Int) (waits : List WaitAns) (rest : List Op) (w' : Script) (x : Int)
+    (bs : Bytes)
+    (hR : Rel m sp) (hI : MInv m) (hL : Live ord m (.recv T waits :: rest)) (ha : m.async = false)
+    (hep : sp.ep = some ep ∧ ep.async = m.async ∧ ep.tls = false ∧ ep.callT = none ∧ ep.discSeen = m.x.a.disconnects)
+    (hsane : saneSends w'.sends = true) (hlen : w'.sends.length ≤ m.x.w.sends.length)
+    (hd : w'.dead = m.x.w.dead) (hw : m.killed.isSome = true → w'.waits = [])
+    (hr : m.x.w.recvs = .data bs :: w'.recvs) :
+    Rel { m with x := { m.x with w := w' }, got := m.got ++ bs }
+        { sp with ep := some { ep with recvOp := true, callT := none, spent := x },
+                  threwAfterKill := if false = true ∧ sp.kill.isSome = true then true else sp.threwAfterKill } ∧
+    MInv { m with x := { m.x with w := w' }, got := m.got ++ bs } ∧
+    Live ord { m with x := { m.x with w := w' }, got := m.got ++ bs } rest := by
+  obtain ⟨h0, he1, he2, he3, he4⟩ := hep
+  refine ⟨?_, ?_, ?_⟩
+  · refine ⟨⟨_, rfl, he1, he2, rfl, he4⟩, hR.spay, hR.kill, hR.pre, hR.ord, ?_, hR.destroyed, hR.enqs, hR.live, hR.futs⟩
+    intro h
+    have := hR.threw h
+    simpa using this
+  · obtain ⟨lost, hs, hl⟩ := hI.stream
+    have hrec := hI.recvs
+    rw [hr] at hrec
+    refine ⟨hI.psent, hrec.2.2, ⟨lost, ?_, hl⟩, ?_, hw, hsane, hI.lossyK, hI.kreal, hI.adisc, hI.areg, hI.pollq, ?_, ?_, hI.threwK⟩
+    · show m.ppay.take m.psent = m.got ++ bs ++ dataOf w'.recvs ++ lost
+      rw [hs, hr]; simp [dataOf]
+    · show w'.dead = m.killed.isSome
+      rw [hd]; exact hI.dead
+    · intro h
+      have := (hI.unreg h).2
+      rw [hr] at this; cases this
+    · intro h
+      have := (hI.rthrew h).2.1
+      rw [hr] at this; cases this
+  · refine ⟨hL.ordEq, ?_, ?_, ?_⟩
+    · intro a; have : m.async = true := a; rw [ha] at this; cases this
+    · intro a hk hrt ho
+      have := hL.recvs a hk hrt ho
+      rw [hr] at this
+      simp only [recvOps, List.length_cons] at this
+      show recvOps rest > w'.recvs.length
+      omega
+    · intro a k p hk ht hn ho
+      have := hL.sends a k p hk ht hn ho
+      simp only [sendOps] at this
+      show sendOps rest > w'.sends.length
+      omega
+
+/-- a synchronous `Receive` that timed out (the peer is alive) -/
+theorem recv_nothing_ok (ord) (m : Sys) (sp : SpecSt) (ep : EpSt) (T : Int) (waits : List WaitAns) (rest : List Op) (w' : Script) (x : Int)
+    (hR : Rel m sp) (hI : MInv m) (hL : Live ord m (.recv T waits :: rest)) (ha : m.async = false)
+    (hep : sp.ep = some ep ∧ ep.async = m.async ∧ ep.tls = false ∧ ep.callT = none ∧ ep.discSeen = m.x.a.disconnects)
+    (hsane : saneSends w'.sends = true)
+    (hd : w'.dead = m.x.w.dead) (hk : m.killed = none)
+    (hr : w'.recvs = m.x.w.recvs) :
+    Rel { m with x := { m.x with w := w' } }
+        { sp with ep := some { ep with recvOp := true, callT := none, spent := x },
+                  threwAfterKill := if false = true ∧ sp.kill.isSome = true then true else sp.threwAfterKill } ∧
+    MInv { m with x := { m.x with w := w' } } ∧
+    Live ord { m with x := { m.x with w := w' } } rest := by
+  obtain ⟨h0, he1, he2, he3, he4⟩ := hep
+  refine ⟨?_, ?_, ?_⟩
+  · refine ⟨⟨_, rfl, he1, he2, rfl, he4⟩, hR.spay, hR.kill, hR.pre, hR.ord, ?_, hR.destroyed, hR.enqs, hR.live, hR.futs⟩
+    intro h
+    have := hR.threw h
+    simpa using this
+  · refine ⟨hI.psent, ?_, ?_, ?_, ?_, hsane, hI.lossyK, hI.kreal, hI.adisc, hI.areg, hI.pollq, ?_, ?_, hI.threwK⟩
+    · show recvsOk m.rsz m.lossy w'.recvs
+      rw [hr]; exact hI.recvs
+    · show ∃ lost, m.ppay.take m.psent = m.got ++ dataOf w'.recvs ++ lost ∧ _
+      rw [hr]; exact hI.stream
+    · show w'.dead = m.killed.isSome
+      rw [hd]; exact hI.dead
+    · intro h; have : m.killed.isSome = true := h; rw [hk] at this; cases this
+    · intro h; have := (hI.unreg h).1; rw [hk] at this; cases this
+    · intro h; have := (hI.rthrew h).1; rw [hk] at this; cases this
+  · refine ⟨hL.ordEq, ?_, ?_, ?_⟩
+    · intro a; have : m.async = true := a; rw [ha] at this; cases this
+    · intro _ h; have : m.killed.isSome = true := h; rw [hk] at this; cases this
+    · intro _ k p h; have : m.killed = some (k, p) := h; rw [hk] at this; cases this
+
+
+/-- the observer's state after the lines of one synchronous `Receive` -/
+def recvSp (sp : SpecSt) (ep : EpSt) (T : Int) (r threw : Bool) : SpecSt :=
+  { sp with ep := some { ep with recvOp := true, callT := none, spent := nextSpent T 0 T r },
+            threwAfterKill := if threw = true ∧ sp.kill.isSome = true then true else sp.threwAfterKill }
+
+theorem step_recv (ord) (m : Sys) (sp : SpecSt) (T : Int) (waits : List WaitAns)
+    (rest : List Op) (hR : Rel m sp) (hI : MInv m) (hL : Live ord m (.recv T waits :: rest))
+    (hok : opOk ord m (.recv T waits) rest = true) :
+    StepOk ord m sp (.recv T waits) rest := by
+  by_cases ha : m.async = true
+  · refine ⟨sp, ?_, ?_, ?_, ?_⟩ <;> simp only [sysStep, if_pos ha]
+    · intro tail; rfl
+    · exact hR
+    · exact hI
+    · exact ⟨hL.ordEq, hL.steps, (fun a => by rw [ha] at a; cases a), hL.sends⟩
+  · have ha' : m.async = false := by cases h : m.async <;> simp_all
+    simp only [opOk, ha', Bool.false_or, Bool.or_eq_true, Option.isNone_iff_eq_none, List.isEmpty_iff] at hok
+    obtain ⟨ep, hep⟩ := hR.ep
+    obtain ⟨hw, hready⟩ := wait_run (arm m.x.w waits []) .rd T
+    rcases hwt : Script.world.wait (arm m.x.w waits []) .rd T with ⟨r, w1⟩
+    rw [hwt] at hw hready
+    have hrec1 : w1.recvs = m.x.w.recvs := hw.recvs
+    have hdead1 : w1.dead = m.x.w.dead := hw.dead
+    have hsane1 : saneSends w1.sends = true := hw.sane (by show saneSends (m.x.w.sends ++ []) = true; simpa using hI.sane)
+    have hlen1 : w1.sends.length ≤ m.x.w.sends.length := by
+      have := hw.sendsLen
+      have e : (arm m.x.w waits []).sends = m.x.w.sends := by simp [arm]
+      rw [e] at this; exact this
+    have hwaits1 : m.killed.isSome = true → w1.waits = [] := by
+      intro hk
+      apply hw.waits
+      rcases hok with h | h
+      · rw [h] at hk; cases hk
+      · subst h; simp [arm, hI.kwaits hk]
+    have hcalls1 : w1.calls = [.wait .rd T r] := by
+      have := hw.calls
+      simpa [arm] using this
+    cases r with
+    | false =>
+      have hval : recvT Script.world (arm m.x.w waits []) m.rsz T = .nothing w1 := by
+        simp [recvT, receive, hwt]
+      have hk : m.killed = none := by
+        cases h : m.killed with
+        | none => rfl
+        | some kp =>
+          have hks : m.killed.isSome = true := by rw [h]; rfl
+          have hd0 : (arm m.x.w waits []).dead = true := by
+            show m.x.w.dead = true
+            rw [hI.dead]; exact hks
+          have hw0 : (arm m.x.w waits []).waits = [] := by
+            rcases hok with h' | h'
+            · rw [h'] at h; cases h
+            · subst h'; simp [arm, hI.kwaits hks]
+          have := hready hd0 hw0
+          cases this
+      obtain ⟨h1, h2, h3⟩ := recv_nothing_ok ord m sp ep T waits rest w1 (nextSpent T 0 T false) hR hI hL ha' hep hsane1 hdead1 hk hrec1
+      refine ⟨recvSp sp ep T false false, ?_, ?_, ?_, ?_⟩ <;> simp only [sysStep, if_neg ha, hval]
+      · intro tail
+        have := specRun_recv sp ep T false false tail hep.1
+        simpa [callsObs, hcalls1, callObs, recvSp, List.filterMap] using this
+      · exact h1
+      · exact h2
+      · exact h3
+    | true =>
+      have hrv : recvT Script.world (arm m.x.w waits []) m.rsz T = recvNow Script.world w1 m.rsz := by
+        simp [recvT, receive, hwt]
+      obtain ⟨c1, c2, c3, c4⟩ := recvNow_script w1 m.rsz
+      have hrecOk := hI.recvs
+      rcases hmr : m.x.w.recvs with _ | ⟨a, rest'⟩
+      · -- nothing pending: end of stream (peer gone) or EAGAIN (peer alive)
+        have hr1 : w1.recvs = [] := by rw [hrec1, hmr]
+        have hdata : dataOf m.x.w.recvs = [] := by rw [hmr]; rfl
+        cases hdd : w1.dead with
+        | true =>
+          have hval := hrv.trans (c1 hr1 hdd)
+          obtain ⟨h1, h2, h3⟩ := recv_exn_ok ord m sp ep T waits rest { w1 with calls := .recv m.rsz (.data []) :: w1.calls }
+            (nextSpent T 0 T true) hR hI hL ha' hep hsane1 hdead1 hwaits1 hr1 hdata
+          refine ⟨recvSp sp ep T true true, ?_, ?_, ?_, ?_⟩ <;> simp only [sysStep, if_neg ha, hval]
+          · intro tail
+            have := specRun_recv sp ep T true true tail hep.1
+            simpa [callsObs, hcalls1, callObs, retOf, Exn.isLogic, recvSp, List.filterMap] using this
+          · exact h1
+          · exact h2
+          · exact h3
+        | false =>
+          have hval := hrv.trans (c2 hr1 hdd)
+          obtain ⟨h1, h2, h3⟩ := recv_exn_ok ord m sp ep T waits rest { w1 with calls := .recv m.rsz (.fail 11) :: w1.calls }
+            (nextSpent T 0 T true) hR hI hL ha' hep hsane1 hdead1 hwaits1 hr1 hdata
+          refine ⟨recvSp sp ep T true true, ?_, ?_, ?_, ?_⟩ <;> simp only [sysStep, if_neg ha, hval]
+          · intro tail
+            have := specRun_recv sp ep T true true tail hep.1
+            simpa [callsObs, hcalls1, callObs, retOf, Exn.isLogic, recvSp, List.filterMap] using this
+          · exact h1
+          · exact h2
+          · exact h3
+      · rw [hmr] at hrecOk
+        cases a with
+        | fail e =>
+          have hrest : rest' = [] := hrecOk.2
+          subst hrest
+          have hr1 : w1.recvs = [.fail e] := by rw [hrec1, hmr]
+          have hdata : dataOf m.x.w.recvs = [] := by rw [hmr]; rfl
+          have hval := hrv.trans (c3 e [] hr1)
+          obtain ⟨h1, h2, h3⟩ := recv_exn_ok ord m sp ep T waits rest { w1 with recvs := [], calls := .recv m.rsz (.fail e) :: w1.calls }
+            (nextSpent T 0 T true) hR hI hL ha' hep hsane1 hdead1 hwaits1 rfl hdata
+          refine ⟨recvSp sp ep T true true, ?_, ?_, ?_, ?_⟩ <;> simp only [sysStep, if_neg ha, hval]
+          · intro tail
+            have := specRun_recv sp ep T true true tail hep.1
+            simpa [callsObs, hcalls1, callObs, retOf, Exn.isLogic, recvSp, List.filterMap] using this
+          · exact h1
+          · exact h2
+          · exact h3
+        | data bs =>
+          have hr1 : w1.recvs = .data bs :: rest' := by rw [hrec1, hmr]
+          have hval := hrv.trans (c4 bs rest' hr1 hrecOk.1 hrecOk.2.1)
+          obtain ⟨h1, h2, h3⟩ := recv_got_ok ord m sp ep T waits rest { w1 with recvs := rest', calls := .recv m.rsz (.data bs) :: w1.calls }
+            (nextSpent T 0 T true) bs hR hI hL ha' hep hsane1 hlen1 hdead1 hwaits1 hmr
+          refine ⟨recvSp sp ep T true false, ?_, ?_, ?_, ?_⟩ <;> simp only [sysStep, if_neg ha, hval]
+          · intro tail
+            have := specRun_recv sp ep T true false tail hep.1
+            simpa [callsObs, hcalls1, callObs, recvSp, List.filterMap] using this
+          · exact h1
+          · exact h2
+          · exact h3
+
 end SockModel.PeerFail.Spec
